@@ -120,11 +120,12 @@ def build_query(P, shape, seed, drift_const=1000):
             if d['kind'] == 'report':
                 tm = d['tm']
                 ta, tq = d['ta'], z3.Int('t_q_%d' % i)
-                cons += tm.domain()
+                cons += tm.domain(neg_iv=True)
                 cons += [ta >= prev, tq >= ta, tpub >= tq, ta >= 5 * NS, d['as_s'] * NS + d['as_n'] == ta, d['as_n'] >= 0, d['as_n'] < NS, d['phc'] >= 0, d['phc'] < 2 ** 40]
                 # documented class of the report (C10 oracle): only such reports carry assumption A1
                 age = tm.now_ns - tm.ref_ns
-                truly_sync = z3.And(tm.leap <= 2, tm.now_ns >= tm.ref_ns, z3.ToReal(age) <= 8 * tm.iv * NS + 1)      # fresh to the 1 ns resolution (cf. C10)
+                # fresh to the 1 ns resolution (cf. C10); with a negative update interval the threshold is 0
+                truly_sync = z3.And(tm.leap <= 2, tm.now_ns >= tm.ref_ns, z3.ToReal(age) <= z3.If(tm.iv < 0, z3.RealVal(0), 8 * tm.iv) * NS + 1)
                 B = (z3.If(tm.c >= 0, tm.c, -tm.c) + tm.r + tm.d / 2) * NS + z3.ToReal(d['phc'])
                 Eq = z3.Real('E_q_%d' % i)
                 cons.append(z3.Implies(truly_sync, z3.And(Eq <= B, Eq >= -B)))
